@@ -91,7 +91,8 @@ def rand_item(rng):
             v += Fraction(1, 2)
         return (t, v)
     n = rng.choice([0, 1, 2, 5, 13, 14, 15, 27, 28, 30, rng.randrange(0, 31)])
-    s = "".join(rng.choice("abcXYZ 09.,;:-") for _ in range(n))
+    # one string in ten has characters above 127: one column each (two bytes inside the interpreter)
+    s = "".join(rng.choice("abcXYZ 09.,;:-" if rng.random() < 0.9 else "ab \u00e9\u00c8\u00ff") for _ in range(n))
     if rng.random() < 0.15 and n > 0:
         i = rng.randrange(len(s) + 1)
         s = s[:i] + rng.choice(["\r", "\n", "\r\n"]) + s[i:]
@@ -227,9 +228,12 @@ def render_num(ip, fd, t, v):
     j = len(text)
     for ch in reversed(ip):
         if ch == ",":
-            out.append("," if j > 0 and text[j - 1] != "-" else (" " if j == 0 else ","))
             if j > 0 and text[j - 1] == "-":
-                raise Discard("sign_next_to_comma")
+                # no digits left to separate: the sign stands directly in front of the number
+                out.append("-")
+                j -= 1
+            else:
+                out.append("," if j > 0 else " ")
         else:
             if j > 0:
                 out.append(text[j - 1])
@@ -450,8 +454,9 @@ def judge(stmts, rep):
         return ("unexpected_error:%s" % (oc[1],), "expected normal end, got %s" % (oc,))
     obs = observe(rep)
     for d in DEVS:
-        raw = "".join(devs[d].raw)
-        impl = "".join(devs[d].impl)
+        # the worker reports the device bytes one character per byte
+        raw = "".join(devs[d].raw).encode("utf-8").decode("latin-1")
+        impl = "".join(devs[d].impl).encode("utf-8").decode("latin-1")
         got = obs[d]
         if got is None:
             got = ""
